@@ -237,6 +237,9 @@ class W1TWorld(World):
             'pct_depth': rng.randint(1, 3),
             'inject': rng.random() < 0.3,
             'contest': rng.random() < 0.3,
+            # finer than the property's stated granularity (every source line of the store): also at the entry of
+            # every function store code calls, i.e. between the calls one source line makes
+            'call_preempt': rng.random() < 0.25,
             'step_cap': 10,
         }
 
@@ -446,6 +449,8 @@ class W1TWorld(World):
             elif op['op'] == 'extract':
                 inst.extract_graph(g)
 
+        call_preempt = bool(self.cfg.get('call_preempt'))
+
         def worker(tid):
             sched.idents[threading.get_ident()] = tid
 
@@ -455,8 +460,16 @@ class W1TWorld(World):
                 return local
 
             def tracer(frame, event, arg):
-                if event == 'call' and frame.f_code.co_filename in files:
-                    return local
+                if event == 'call':
+                    fn = frame.f_code.co_filename
+                    if fn in files:
+                        return local
+                    # entry of a function called directly from store code (a networkx constructor or mutator, a
+                    # defaultdict factory, ...): one store source line can contain several such calls, and a
+                    # thread may be pre-empted between them
+                    b = frame.f_back
+                    if call_preempt and b is not None and fn != __file__ and b.f_code.co_filename in files:
+                        sched.point(tid, frame, kind='call')
                 return None
             try:
                 with sched.cv:
@@ -531,6 +544,8 @@ class W1TWorld(World):
         # ---------------- oracles
         where = sched.fired[0] if sched.fired else {}
         sigx = {'injected': bool(sched.fired), 'func': where.get('func', ''), 'line': where.get('line', '')}
+        if call_preempt:
+            sigx['preempt'] = 'call'
         if sched.deadlock:
             holders = lock.owner
             self.flag('no_deadlock', dict(sigx, symptom='deadlock'),
@@ -570,7 +585,10 @@ class W1TWorld(World):
                                         for j in range(min(i, len(results[tid]))))
                     if earlier_crash and not r.startswith('harness:') and 'RuntimeError' not in r:
                         continue    # follows an operation of the same thread on the same graph that was crashed
-                    self.flag('op_failed', dict(sigx, symptom=r.split(':')[1] if ':' in r else r, op=op.get('op', '')),
+                    sym = r.split(':')[1] if ':' in r else r
+                    if 'during iteration' in r:
+                        sym = 'concurrent_iteration'
+                    self.flag('op_failed', dict(sigx, symptom=sym, op=op.get('op', '')),
                               'thread %d operation %s failed under this interleaving: %s' % (tid, canon(op), r))
         # expected content: sequential result of each owner's operations; union for the common graph
         exp_nodes, exp_edges = {}, {}
